@@ -132,7 +132,14 @@ func TestC10_Reorg(t *testing.T) {
 				t.Fatalf("HARNESS: mine on %s: %v\n%s", what, err, strings.Join(a.Log, "\n"))
 			}
 		}
-		for i, k := 0, rapid.IntRange(0, 6).Draw(t, "trunkExtra"); i < k; i++ {
+		trunkExtra := rapid.IntRange(0, 6).Draw(t, "trunkExtra")
+		if trunk.StickyPct > 0 {
+			// a reward executes about six blocks after the block that earned it (inclusion depth plus the
+			// round trip through prime): the trunk must be long enough for sticky rewards to be on
+			// their way when the branches start
+			trunkExtra = rapid.IntRange(9, 14).Draw(t, "trunkExtraLockupHeavy")
+		}
+		for i, k := 0, trunkExtra; i < k; i++ {
 			step(trunk, "trunk")
 		}
 		forkHeads := trunk.Heads
